@@ -379,6 +379,114 @@ out:
 	vh_fini();
 }
 
+// ---- the same derived handle closed by two threads at once --------------------------------------
+// S listens (LS), PEER dials (DL), a context is open on S where the protocol has them, one pipe is
+// up.  Two threads call the close function of the SAME handle (context / listener / dialer / pipe)
+// concurrently - one of them may also be a short option call that takes a transient reference.
+// Both calls must return, at least one with 0, the other with 0, NNG_ECLOSED or NNG_ENOENT; the
+// handle is dead afterwards; and the owning socket can still be closed (a reference leaked by the
+// losing closer would hang that close: deadlock verdict) with all memory returned.
+enum { D_CTX, D_LISTENER, D_DIALER, D_PIPE, D_N };
+static const char *DN[] = { "ctx", "listener", "dialer", "pipe" };
+static int         d_obj;
+static void *
+t_dclose(void *a)
+{
+	int *rv = a;
+	switch (d_obj) {
+	case D_CTX:
+		*rv = nng_ctx_close(CTX);
+		break;
+	case D_LISTENER:
+		*rv = nng_listener_close(LS);
+		break;
+	case D_DIALER:
+		*rv = nng_dialer_close(DL);
+		break;
+	default:
+		*rv = nng_pipe_close(PIPE);
+		break;
+	}
+	return NULL;
+}
+static void *
+t_dtouch(void *a)
+{
+	int         *rv = a;
+	nng_duration d;
+	const nng_url *u;
+	const char    *sch;
+	switch (d_obj) {
+	case D_CTX:
+		*rv = nng_ctx_get_ms(CTX, NNG_OPT_RECVTIMEO, &d);
+		break;
+	case D_LISTENER:
+		*rv = nng_listener_get_url(LS, &u);
+		break;
+	case D_DIALER:
+		*rv = nng_dialer_get_ms(DL, NNG_OPT_RECONNMINT, &d);
+		break;
+	default:
+		*rv = nng_pipe_get_scheme(PIPE, &sch);
+		break;
+	}
+	return NULL;
+}
+static void
+run_double(void *arg)
+{
+	int p = (int) (intptr_t) arg;
+	vh_init(1);
+	have_pipe = 0;
+	VH_OK(P[p].open(&S));
+	VH_OK(nng_pipe_notify(S, NNG_PIPE_EV_ADD_POST, pipe_cb, NULL));
+	char url[64];
+	snprintf(url, sizeof(url), "inproc://c10d-%s", P[p].name);
+	VH_OK(nng_listen(S, url, &LS, 0));
+	VH_OK(P[p].peer(&PEER));
+	VH_OK(nng_dial(PEER, url, &DL, 0));
+	if (P[p].ctx)
+		VH_OK(nng_ctx_open(&CTX, S));
+	vs_settle();
+	if (!have_pipe)
+		vs_fail("harness:setup", "%s: no pipe after dial", P[p].name);
+	d_obj = vs_choose(VK_ENV, D_N);
+	if (d_obj == D_CTX && !P[p].ctx) {
+		vs_outcome("n/a");
+		nng_socket_close(PEER);
+		nng_socket_close(S);
+		vh_fini();
+		return;
+	}
+	int second = vs_choose(VK_ENV, 2); // 0: a second close, 1: a short call on the handle
+	int r1 = -1, r2 = -1;
+	pthread_t t1, t2;
+	vs_window(1);
+	pthread_create(&t1, NULL, t_dclose, &r1);
+	pthread_create(&t2, NULL, second ? t_dtouch : t_dclose, &r2);
+	pthread_join(t1, NULL);
+	pthread_join(t2, NULL);
+	vs_window(0);
+	vs_settle();
+	int ok1 = r1 == 0 || r1 == NNG_ECLOSED || r1 == NNG_ENOENT;
+	int ok2 = r2 == 0 || r2 == NNG_ECLOSED || r2 == NNG_ENOENT;
+	if (!ok1 || !ok2 || (r1 != 0 && (second || r2 != 0)))
+		vs_fail("C10:close-result",
+		    "%s: %s closed by two threads at once: results %d and %d (%s)",
+		    P[p].name, DN[d_obj], r1, r2, second ? "close + option call" : "two closes");
+	int r3 = -1;
+	t_dclose(&r3);
+	dead(DN[d_obj], r3);
+	vs_outcome("%s %s r=%d/%d", DN[d_obj], second ? "touch" : "close", r1, r2);
+	// a leaked reference shows here: the owner's close waits for the object for ever
+	int rp = nng_socket_close(PEER);
+	int rs = nng_socket_close(S);
+	if (rp != 0 || rs != 0)
+		vs_fail("C10:close-result", "%s: socket closes after a double %s close -> %d, %d",
+		    P[p].name, DN[d_obj], rp, rs);
+	vh_fini();
+}
+
 // ---- sets of aio operations pending at close (no threads) -------------------------
 typedef struct pa {
 	nng_aio *aio;
@@ -533,6 +641,27 @@ main(int argc, char **argv)
 			c.deadline_s         = T ? (w == W_CTXOP ? 240 : 150) : (w == W_CTXOP ? 30 : 6);
 			vx_explore(&c, NULL);
 		}
+	for (int p = 0; p < NP; p++) {
+		if (vx_time_left() < 15)
+			break;
+		if (!T && !(p == 0 || p == 7)) // quick: pair0 (no contexts) and rep (contexts)
+			continue;
+		char name[48];
+		snprintf(name, sizeof(name), "double-%s", P[p].name);
+		vx_cfg c;
+		memset(&c, 0, sizeof(c));
+		c.prop     = "C10";
+		c.scenario = strdup(name);
+		c.run      = run_double;
+		c.arg      = (void *) (intptr_t) p;
+		c.budget[VB_PREEMPT] = T ? 2 : 1;
+		c.budget[VB_SWITCH]  = T ? 2 : 1;
+		c.budget[VB_WAKE1]   = 1;
+		c.budget[VB_ENV]     = -1;
+		c.total              = T ? 2 : 1;
+		c.deadline_s         = T ? 150 : 20;
+		vx_explore(&c, NULL);
+	}
 	for (int p = 0; p < NP; p++) {
 		if (vx_time_left() < 15)
 			break;
